@@ -154,6 +154,9 @@ var seedExpectations = []seedExpect{
 	{"C13-g", "C13", "promote.loopaware", "promoteBlocksIn:StmtLoop"},
 	{"C15-g", "C15", "clamp.rawafter", "emitImageLoadRestrict:UMin(levelID)"},
 	{"C11-g", "C11", "lookup.innerfirst", "resolveIdentifier"},
+	{"C02-g", "C02", "phi.predecessor", "emitImageLoadRZSW:branch-to-mergeBlockID#2"},
+	{"C14-g", "C14", "error.breakloop", "evaluateGlobalInitializers:if-err"},
+	{"C17-g", "C17", "index.mixedbasis", "writeEPInputStruct:fakeMembers.index"},
 	// hand-made positive controls (controls/)
 	{"globals-write", "C12", "globals.nowrite", "typeNameCache"},
 	{"rzsw-nomerge", "C02", "spirv.mergefirst", "emitImageLoadRZSW"},
